@@ -40,6 +40,11 @@ deriving DecidableEq, Repr
 /-- `Preferences.useDefaults()` (`serialize.py:135-161`) -/
 def SPrefs.default : SPrefs := {}
 
+/-- `Preferences.useMinified()` (`serialize.py:163-186`) on the fields of `SPrefs` (the other fields keep their defaults) -/
+def minifiedPrefs : SPrefs :=
+  { indent := [], keepComments := false, lineSeparator := [], listItemSpacer := [], omitLastSemicolon := true,
+    paranthesisSpacer := [], propertyNameSpacer := [], spacer := [], validOnly := false }
+
 structure REnv where
   /-- `propertyValue.cssText` under the current preferences -/
   vtext : Val → Cps
